@@ -14,6 +14,7 @@ SIG_WRAP = "as_tensornet:two-qubit-gate-wrapped-without-reshape"
 SIG_EINSUM = "contract_einsum:label-position-slip-on-idle-wire"
 SIG_CTOR = "Circuit.__init__:gates-captured-by-reference"
 SIG_ARRAY = "by-value:array-attribute-shared-with-circuit-copy"
+SIG_PREP = "as_tensornet:prepare-gate-is-the-rank-one-map-not-the-unitary-of-as_matrix"
 
 
 def jsonable(x):
@@ -31,11 +32,11 @@ def rand_particles(rng, sizes, k):
 def rand_spec(rng, sizes, exact, pool=None):
     """one gate spec on particles of `sizes`; pool = preferred control particles (shared controls)"""
     total = sum(sizes)
-    kinds = ["X", "Y", "Z", "S", "Gen1", "Gen2", "C1", "C1", "C2", "iSwap", "Mux", "CC"]
+    kinds = ["X", "Y", "Z", "S", "Gen1", "Gen2", "C1", "C1", "C2", "iSwap", "Mux", "CC", "I", "Sdg"]
     if not exact:
-        kinds += ["H", "T", "Rx", "Ry", "Rz", "Rxx", "Ryy", "Rzz", "Phase", "Sx", "CH", "CRz"]
+        kinds += ["H", "T", "Rx", "Ry", "Rz", "Rxx", "Ryy", "Rzz", "Phase", "Sx", "CH", "CRz", "Tdg", "Rot", "Prep2", "CRot"]
     need_of = {"Gen2": 2, "C1": 2, "C2": 3, "iSwap": 2, "Mux": 2, "CC": 3, "Rxx": 2, "Ryy": 2, "Rzz": 2,
-               "Phase": 2, "CH": 2, "CRz": 2}
+               "Phase": 2, "CH": 2, "CRz": 2, "Prep2": 2, "CRot": 2}
     while True:
         k = rng.choice(kinds)
         need = need_of.get(k, 1)
@@ -48,10 +49,16 @@ def rand_spec(rng, sizes, exact, pool=None):
             if len(ps) < need:
                 continue
         th = rng.randint(-16, 16) / 8.0
-        if k in ("X", "Y", "Z", "S", "H", "T", "Sx"):
+        if k in ("X", "Y", "Z", "S", "H", "T", "Sx", "I", "Sdg", "Tdg"):
             return [k, ps[0]]
         if k in ("Rx", "Ry", "Rz"):
             return [k, th, ps[0]]
+        if k == "Rot":
+            return ["Rot", [rng.randint(-8, 8) / 8.0 for _ in range(3)], ps[0]]
+        if k == "CRot":
+            return ["C", [rng.randint(0, 1)], [ps[0]], ["Rot", [rng.randint(-8, 8) / 8.0 for _ in range(3)], ps[1]]]
+        if k == "Prep2":
+            return ["Prep", [rng.randint(1, 8) / 8.0 * rng.choice([-1, 1]) for _ in range(4)], ps]
         if k in ("Rxx", "Ryy", "Rzz"):
             return [k, th, ps[0], ps[1]]
         if k == "Phase":
@@ -97,15 +104,23 @@ def spec_particles_fields(spec):
     return [p[0] for p in spec_particles(spec)]
 
 
-def ref_circuit(sizes, order, specs):
-    """independent reference: product of independently embedded gate matrices, first gate first"""
+def ref_circuit(sizes, order, specs, tn_prepare=False):
+    """independent reference: product of independently embedded gate matrices, first gate first.
+    tn_prepare: a PrepareGate enters as the rank-one map |x><0..0| its as_tensornet() is (by design, pinned by
+    tests/test_gates.py) instead of the unitary completion as_matrix() returns"""
     F = mk_fields(sizes)
     nw = sum(sizes[i] for i in order)
     M = np.identity(2 ** nw, dtype=complex)
     for s in specs:
         g = build_gate(s, F)
         ws = [wire_of(sizes, order, p) for p in spec_particles(s)]
-        M = ref_embed(nw, ws, g.as_matrix()) @ M
+        gm = g.as_matrix()
+        if tn_prepare and s[0] == "Prep":
+            x = np.sign(g.vec) * np.sqrt(np.abs(g.vec))
+            e0 = np.zeros(len(x))
+            e0[0] = 1
+            gm = np.outer(x, e0)
+        M = ref_embed(nw, ws, gm) @ M
     return M
 
 
@@ -183,7 +198,11 @@ def oracle_program(ctx, sizes, specs, desc, other_order=None):
             ctx.fail("statevector:not-unit-norm", desc, 1, float(abs(np.vdot(psi, psi))))
     except Exception as e:
         ctx.fail("statevector:crash:" + type(e).__name__, desc, "state", repr(e))
-    # tensor network view
+    # tensor network view.  Programs with a (top-level) PrepareGate: its network is the rank-one map |x><0..0|, not the
+    # unitary of as_matrix() (known finding SIG_PREP, reported when the two differ); the network machinery is still
+    # checked exactly, against the product in which that gate enters as the rank-one map
+    has_prep = any(s_[0] == "Prep" for s_ in specs)
+    Mtn = ref_circuit(sizes, order, specs, tn_prepare=True) if has_prep else M
     if nw <= 6:
         try:
             net = circ.as_tensornet()
@@ -195,16 +214,22 @@ def oracle_program(ctx, sizes, specs, desc, other_order=None):
                 t, am = net.contract_einsum()
                 T = np.asarray(to_full_tensor(t, am), dtype=complex).reshape(2 ** nw, 2 ** nw)
                 ctx.count("tensornet_ran")
-                if not np.allclose(T, M, rtol=0, atol=1e-10):
+                if has_prep:
+                    ctx.count("tensornet_ran_with_prepare")
+                    if not np.allclose(T, M, rtol=0, atol=1e-10):
+                        ctx.fail(SIG_PREP, {"kind": "program", "sizes": sizes, "specs": specs}, "as_matrix", "differs")
+                if not np.allclose(T, Mtn, rtol=0, atol=1e-10):
                     ctx.fail("as_tensornet:contraction-differs-from-matrix", desc, "as_matrix", "differs")
         except Exception as e:
             ctx.fail(classify_tn_error(e, specs), desc, "network contracting to as_matrix", repr(e)[:200])
         try:
             out = np.asarray(qib.simulator.TensorNetworkSimulator().run(circ), dtype=complex).reshape(-1)
             ctx.count("tn_simulator_ran")
-            if not np.allclose(out, M[:, 0], rtol=0, atol=1e-10):
+            if has_prep and not np.allclose(out, M[:, 0], rtol=0, atol=1e-10):
+                ctx.fail(SIG_PREP, {"kind": "program", "sizes": sizes, "specs": specs}, "column 0 of as_matrix", "differs")
+            if not np.allclose(out, Mtn[:, 0], rtol=0, atol=1e-10):
                 ctx.fail("tn_simulator:not-first-column", desc, "column 0 of as_matrix", "differs")
-            if abs(np.vdot(out, out) - 1) > 1e-9:
+            if not has_prep and abs(np.vdot(out, out) - 1) > 1e-9:
                 ctx.fail("tn_simulator:not-unit-norm", desc)
         except Exception as e:
             ctx.fail(classify_tn_error(e, specs).replace("as_tensornet:", "as_tensornet:").replace("tensornet:crash", "tn_simulator:crash"),
@@ -634,7 +659,7 @@ def run(ctx):
                        "alphabet (the arrays GeneralGate.mat / RotationGate.ntheta ARE shared by copy(): oracle + known finding "
                        "by-value:array-attribute-shared-with-circuit-copy), as is mutation through "
                        "circuit.gates are outside the mutation alphabet; c.append_circuit(c) does not terminate and is excluded")
-    ctx.rules.append("random programs (X,Y,Z,S,H,T,Sx,Rx/y/z,Rxx/yy/zz,iSwap,Phase,General, controlled incl. negated and nested "
+    ctx.rules.append("random programs (I,X,Y,Z,S,Sdg,H,T,Tdg,Sx,Rx/y/z,Rotation,Rxx/yy/zz,iSwap,Phase,Prepare,General, controlled incl. negated and nested "
                      "controls, multiplexed; shared control wires; idle wires; 1-3 fields; length<=10) through as_matrix (two field "
                      "orders), StatevectorSimulator, as_tensornet().contract_einsum(), TensorNetworkSimulator; builder-call "
                      "histories over 1-3 circuits with mutations after every kind of add. scripted histories: every mutation of the "
@@ -671,6 +696,7 @@ def run(ctx):
         ([5], [["H", (0, 0)], ["H", (0, 1)]]),
         ([4], [["C", [1], [(0, 2)], ["X", (0, 3)]]]),
         ([2, 3], [["H", (0, 1)], ["C", [0], [(0, 1)], ["X", (1, 2)]]]),
+        ([3], [["X", (0, 2)], ["Prep", [0.5, 0.25, -0.125, 0.125], [(0, 2), (0, 0)]]]),
     ]
     for sizes, specs in fixed:
         specs = jsonable(specs)
